@@ -2146,7 +2146,10 @@ func (h *fsmHandler) established(ctx context.Context) (bgp.FSMState, *fsmStateRe
 			if !s.Enabled {
 				return bgp.BGP_FSM_IDLE, newfsmStateReason(fsmHoldTimerExpired, m, nil)
 			} else if err != nil {
-				return bgp.BGP_FSM_IDLE, newfsmStateReason(fsmWriteFailed, nil, nil)
+				// hand the failure to the reasonCh branch above so that it is
+				// classified like any other transport failure (graceful restart)
+				reasonCh <- *newfsmStateReason(fsmWriteFailed, nil, nil)
+				continue
 			}
 			reasonCh <- *newfsmStateReason(fsmNotificationSent, m, nil)
 		case <-holdtimerResetCh:
